@@ -388,7 +388,45 @@ def check(spec, ctx):
         ctx.fail(f"affinity after the coordinates of used geometries were re-assigned is {got}, freshly built geometries with the same coordinates give {fresh}", spec, got, fresh, kind="stale_after_assignment")
 
 
+def enum_tiny_extent(tier):
+    """Boxes (and the same rectangles as polygons) whose time extent or bandwidth is n sub-normal steps wide, against their first j steps:
+    the intersection over union is j/n exactly, and the self affinity 1 - however small the unit is (a joint extent below 1e-308 cannot
+    be inverted in floats, which is what a normalisation of the pair would try)."""
+    out = []
+    for e in ([0, 1, 5, 20, 40, 52, 60] if tier == "quick" else list(range(0, 64, 3)) + [52, 60, 100, 500]):
+        for n in range(2, 9 if tier == "quick" else 13):
+            for j in range(1, n + 1):
+                for axis in ("time", "frequency"):
+                    for kind2 in ("BoundingBox", "Polygon"):
+                        out.append({"e": e, "n": n, "j": j, "axis": axis, "kind2": kind2})
+    return out
+
+
+def check_tiny_extent(spec, ctx):
+    from soundevent import data
+    from soundevent.evaluation import compute_affinity
+
+    e, n, j, axis, kind2 = spec["e"], spec["n"], spec["j"], spec["axis"], spec["kind2"]
+    if not (0 <= e <= 900 and 2 <= n <= 16 and 1 <= j <= n and axis in ("time", "frequency") and kind2 in ("BoundingBox", "Polygon")):
+        raise ValueError("malformed spec")
+    u = 5e-324 * 2.0**e
+    if axis == "time":
+        c1, c2 = [0.0, 100.0, n * u, 200.0], [0.0, 100.0, j * u, 200.0]
+    else:
+        c1, c2 = [1.0, 0.0, 2.0, n * u], [1.0, 0.0, 2.0, j * u]
+    g1 = data.BoundingBox(coordinates=c1)
+    g2 = data.BoundingBox(coordinates=c2) if kind2 == "BoundingBox" else data.Polygon(coordinates=[[[c2[0], c2[1]], [c2[2], c2[1]], [c2[2], c2[3]], [c2[0], c2[3]]]])
+    exp = j / n
+    ctx.case(spec, nontrivial=j < n, labels=[axis, kind2, "subnormal" if n * u < 2.2250738585072014e-308 else "normal"], out={"expected": exp})
+    for what, a, b in (("(box, part)", g1, g2), ("(part, box)", g2, g1), ("(box, box)", g1, g1), ("(part, part)", g2, g2)):
+        want = exp if a is not b else 1.0
+        got = ctx.call(spec, f"compute_affinity{what} with an extent of {n} x {u!r} along {axis}", compute_affinity, a, b, time_buffer=0, freq_buffer=0)
+        if not (isinstance(got, float) and abs(got - want) <= 1e-9):
+            ctx.fail(f"compute_affinity{what}: {axis} extent {n} x {u!r}, part {j} x {u!r}: got {got!r}, the area intersection over union is {want!r}", spec, got, want, kind="tiny_extent_iou")
+
+
 SUBS = [
+    Sub("tiny_extents", check_tiny_extent, enumerate=enum_tiny_extent, exhaustive_note="a fixed family, not a domain: units 5e-324 x 2^e (7 / 25 exponents) x widths 2..8 / 2..12 x every part x time / frequency x box / polygon", min_nontrivial=0.0),
     Sub("affinity_laws", check, strategy=case, quick=8100, thorough=250000, min_nontrivial=0.15),
     Sub("near_coincident", check, strategy=near_case, quick=6000, thorough=200000, min_nontrivial=0.5),
 ]
